@@ -42,9 +42,20 @@ def describe(prop, key):
     return key
 
 
+def _module_predicates(prop):
+    """A property module may define KNOWN = {key: predicate(violation) -> bool}."""
+    try:
+        import importlib
+        mod = importlib.import_module('vf.props.' + prop.lower())
+        return getattr(mod, 'KNOWN', {})
+    except Exception:
+        return {}
+
+
 def classify(prop, violation):
+    mp = _module_predicates(prop)
     for key in open_keys(prop):
-        p = _PREDICATES.get((prop, key))
+        p = _PREDICATES.get((prop, key)) or mp.get(key)
         if p is not None:
             try:
                 if p(violation):
